@@ -48,6 +48,7 @@ import Driver.VocBlocks
 import Driver.Label
 import Driver.ShortIo
 import Driver.AudioDetect
+import Driver.ErrApi
 import Driver.HandleG
 import Driver.StageLoop
 import Driver.RsrcSwap
@@ -144,6 +145,7 @@ def main (args : List String) : IO UInt32 := do
   | "label" :: rest => LabelDriver.main rest
   | "shortio" :: rest => ShortIoDriver.main rest
   | "audiodetect" :: rest => AudioDetectDriver.main rest
+  | "errapi" :: rest => ErrApiDriver.main rest
   | "handleg" :: rest => HandleGDriver.cmd rest
   | "stage" :: rest => StageLoopDriver.main rest
   | "second" :: rest => RsrcSwapDriver.main rest
